@@ -8,6 +8,9 @@ origin (replacement transaction) or by dns.zone.from_text on a zone created WITH
 Names are exchanged as 1-based indices into the name table printed by TLC (canonical,
 relative to the origin); a name that is not in the table, or that has the wrong
 relativity for the zone, is projected to -1.  0 means "no name" (right bound None)."""
+import functools
+
+import dns.btree
 import dns.btreezone
 import dns.name
 import dns.rdata
@@ -84,10 +87,16 @@ def call(fn):
         return "err", type(e).__name__, None
 
 
-def observe(zone, tab, relativize, queries, spelling):
+def observe(zone, tab, relativize, queries, spelling, bt=0, shape=None):
     """Projection of the newest committed version."""
     with zone.reader() as txn:
         v = txn.version
+        want_t = bt or dns.btree.DEFAULT_T
+        if v.nodes.t != want_t or v.delegations.t != want_t:
+            raise RuntimeError("branching factor %s/%s, wanted %s" % (v.nodes.t, v.delegations.t, want_t))
+        if shape is not None:
+            shape[0] = shape[0] or not v.nodes.root.is_leaf
+            shape[1] = shape[1] or not v.delegations.root.is_leaf
         content, flags = [], []
         for name, node in v.nodes.items():
             i = tab.project(name, relativize)
@@ -120,6 +129,34 @@ def setup(table, qsets):
     QSETS = qsets
 
 
+_zone_classes = {}
+
+
+def zone_class(bt):
+    """dns.btreezone.Zone (bt = 0: default branching factor t = 127, where every tree of a small zone
+    is a single leaf) or a subclass whose name tree and delegation index are B-trees with branching
+    factor t = bt, so that splits, merges, steals and multi-level copy-on-write happen with a
+    handful of names.  Nothing in /repo is changed: the name tree comes from map_factory, the
+    delegation index of a replacement version from the WritableVersion constructor (later versions
+    clone both and inherit t)."""
+    if bt not in _zone_classes:
+        if not bt:
+            _zone_classes[bt] = dns.btreezone.Zone
+        else:
+            class SmallVersion(dns.btreezone.WritableVersion):
+                def __init__(self, zone, replacement=False):
+                    super().__init__(zone, replacement)
+                    if replacement:
+                        self.delegations = dns.btreezone.Delegations(t=bt)
+
+            class SmallZone(dns.btreezone.Zone):
+                map_factory = functools.partial(dns.btree.BTreeDict, t=bt)
+                writable_version_factory = SmallVersion
+
+            _zone_classes[bt] = SmallZone
+    return _zone_classes[bt]
+
+
 def zone_text(tab, recs, spelling):
     """Zone-file text of a load: a $ORIGIN line, then one line per record in the given order;
     owner names relative ('nat') or absolute ('oth')."""
@@ -131,15 +168,18 @@ def zone_text(tab, recs, spelling):
     return "\n".join(lines) + "\n"
 
 
-def replay(hist, qset, relativize, spelling, tid, mk="origin"):
+def replay(hist, qset, relativize, spelling, tid, mk="origin", bt=0):
     """mk = "origin": the zone is created with its origin and loaded by a replacement transaction;
     mk = "learn": the zone is created WITHOUT an origin by dns.zone.from_text and its first
     (replacement) transaction learns the origin from the $ORIGIN line of the text."""
     tab = TABLE
     queries = QSETS[qset]
-    trace = {"tid": tid, "rel": relativize, "sp": spelling, "qset": qset, "mk": mk, "ev": []}
+    trace = {"tid": tid, "rel": relativize, "sp": spelling, "qset": qset, "mk": mk, "bt": bt, "ev": []}
     ev = trace["ev"]
-    zone = dns.btreezone.Zone(ORIGIN, relativize=relativize) if mk == "origin" else None
+    zclass = zone_class(bt)
+    shape = [False, False]  # was the name tree / the delegation index ever more than one leaf?
+    trace["shape"] = shape
+    zone = zclass(ORIGIN, relativize=relativize) if mk == "origin" else None
     txn = None
     for e in hist:
         op = e["op"]
@@ -147,12 +187,12 @@ def replay(hist, qset, relativize, spelling, tid, mk="origin"):
         if op == "load" and zone is None:
             res, exc, zone = call(lambda: dns.zone.from_text(
                 zone_text(tab, e["recs"], spelling), origin=None, relativize=relativize,
-                zone_factory=dns.btreezone.Zone, check_origin=False))
+                zone_factory=zclass, check_origin=False))
             if zone is None:
                 rec.update(res=res, exc=exc, obs={"content": [], "flags": [], "delegs": [], "bounds": []})
                 ev.append(rec)
                 break
-            rec.update(res=res, exc=exc, obs=observe(zone, tab, relativize, queries, spelling))
+            rec.update(res=res, exc=exc, obs=observe(zone, tab, relativize, queries, spelling, bt, shape))
         elif op == "load":
             # a replacement transaction adding one record at a time, like the zone file reader
             def load():
@@ -160,13 +200,13 @@ def replay(hist, qset, relativize, spelling, tid, mk="origin"):
                     for i, ty, k in e["recs"]:
                         t.add(tab.by_index(i, relativize, spelling), 300, make_rdata(ty, k))
             res, exc, _ = call(load)
-            rec.update(res=res, exc=exc, obs=observe(zone, tab, relativize, queries, spelling))
+            rec.update(res=res, exc=exc, obs=observe(zone, tab, relativize, queries, spelling, bt, shape))
         elif op == "begin":
             res, exc, txn = call(lambda: zone.writer())
             rec.update(res=res, exc=exc)
         elif op == "end":
             res, exc, _ = call(txn.commit if e["how"] == "commit" else txn.rollback)
-            rec.update(res=res, exc=exc, obs=observe(zone, tab, relativize, queries, spelling))
+            rec.update(res=res, exc=exc, obs=observe(zone, tab, relativize, queries, spelling, bt, shape))
             txn = None
         else:
             name = tab.by_index(e["name"], relativize, spelling)
@@ -190,9 +230,9 @@ def replay(hist, qset, relativize, spelling, tid, mk="origin"):
 
 
 def run_job(job):
-    hist, qset, relativize, spelling, tid, mk = job
+    hist, qset, relativize, spelling, tid, mk, bt = job
     try:
-        return replay(hist, qset, relativize, spelling, tid, mk)
+        return replay(hist, qset, relativize, spelling, tid, mk, bt)
     except Exception as e:  # a driver failure is reported as an unmatched trace
-        return {"tid": tid, "rel": relativize, "sp": spelling, "qset": qset, "mk": mk,
+        return {"tid": tid, "rel": relativize, "sp": spelling, "qset": qset, "mk": mk, "bt": bt,
                 "ev": [{"op": "driver-error", "exc": repr(e)}]}
